@@ -8,12 +8,7 @@ package character
 // C19: the character tokenizer never panics; offsets point into the source text
 // ---------------------------------------------------------------------------
 
-// utf8.DecodeRune (assumed): consumes between 1 and 4 bytes of a non-empty input, never more than
-// there are; an empty input yields (RuneError, 0).
-//@ assume func utf8.DecodeRune(p)
-//@   pure
-//@   ensures result1 >= 0 && result1 <= len(p) && implies(len(p) == 0, result0 == utf8.RuneError && result1 == 0) && implies(len(p) > 0, result1 >= 1 && result1 <= 4)
-
+// (utf8.DecodeRune: assumed contract in package analysis)
 // a token of the input: a non-empty byte range of it, and Term is exactly that range (same storage)
 //@ spec tokOf(input []byte, t *analysis.Token) bool = t != nil && 0 <= t.Start && t.Start < t.End && t.End <= len(input) && \
 //@     base(t.Term) == base(input) && offset(t.Term) == offset(input) + t.Start && len(t.Term) == t.End - t.Start
